@@ -252,7 +252,7 @@ open Graphiq.Compare in
 def cmdCmp (a : Args) : String :=
   match circOfStr (get a "a"), circOfStr (get a "b") with
   | some c1, some c2 =>
-    s!"ok direct={showEB (direct c1 c2)} iso={showEB (circuitIsIsomorphic c1 c2)} isonorm={showEB (isoNormalised c1 c2)} reneq={b01 (renEq c1 c2)} wireseq={b01 (wiresEq c1 c2)}"
+    s!"ok direct={showEB (direct c1 c2)} directl={b01 (directL c1 c2)} iso={showEB (circuitIsIsomorphic c1 c2)} isonorm={showEB (isoNormalised c1 c2)} reneq={b01 (renEq c1 c2)} wireseq={b01 (wiresEq c1 c2)}"
   | _, _ => "err parse"
 
 open Graphiq.Compare in
